@@ -112,12 +112,15 @@ static inline const char *path_last_node(const char *path)
 {
     const char *it = path + strlen(path);
 
+    if (it == path)
+        return it;
+
     do
     {
         --it;
-    } while (*it != '\\' && it != path);
+    } while (*it != '/' && it != path);
 
-    if (*it == '\\')
+    if (*it == '/')
         it++;
 
     return it;
